@@ -165,9 +165,10 @@ def build_a(g):
             'rows': rows, 'meta': False}
 
 @st.composite
-def lane_bc(draw, tier):
+def lane_bc(draw, tier, kind=None):
+    """kind=None: valid instance (lane B); else the named mutation is tried first (lane C).  The mutation kind is a parameter and not a
+    drawn value because Hypothesis clusters drawn choices: each worker runs one small campaign per kind, so no class stays empty."""
     ch = dm.Ch(draw)
-    kind = ch.pick(dm.MUTATIONS) if ch.chance(3, 5) else None
     wish = dm.WISHES.get(kind) if kind and ch.chance(3, 4) else None
     dtd = dm.gen_dtd(ch, tier, wish)
     doc = dm.gen_valid_doc(ch, dtd, tier)
@@ -294,7 +295,11 @@ def worker(ctx):
 
     na = max(4, ctx.budget // 13)
     hyp_run(ctx, lane_a(ctx.tier), prop_a, na, batches=2, seed_salt=7)
-    hyp_run(ctx, lane_bc(ctx.tier), prop_bc, ctx.budget, batches=4, seed_salt=11)
+    nb = ctx.budget * 2 // 5
+    hyp_run(ctx, lane_bc(ctx.tier), prop_bc, nb, batches=2, seed_salt=11)
+    per = max(3, (ctx.budget - nb) // len(dm.MUTATIONS))
+    for i, kind in enumerate(dm.MUTATIONS):
+        hyp_run(ctx, lane_bc(ctx.tier, kind), prop_bc, per, batches=1, seed_salt=100 + i)
 
 def replay(case, ctx):
     return check_case(case, ctx.executor('xvexec'))
